@@ -1,28 +1,34 @@
 (* Model/H3Cache.v - executable model of the HTTP/3 connection cache of
    /repo/internal/http3/roundtrip.go: RoundTripper.clients (hostname -> roundTripperWithCount)
    and the useCount that protects a cached connection from CloseIdleConnections (C09).
+   Describes the code after the repairs 5efe32e / 47c9d8e (a waiter gives its use count back,
+   a failed or closed cached entry is replaced by a new dial, removeClientEntry).
 
    One event = one region under RoundTripper.mutex, or one atomic useCount operation.
 
    Go (internal/http3/roundtrip.go)                        model
    ------------------------------------------------------  ---------------------------
-   RoundTripOpt -> getClient (lookup / create + dial
-     goroutine, delete on a finished failed dial,
-     useCount.Add(1))                                      E3Get h
+   RoundTripOpt -> getClient (lookup; an entry whose dial
+     failed or whose connection is closed is dropped and
+     dialled again; create + dial goroutine;
+     useCount.Add(1))                                      E3Get h / E3Reget q  -> get_client
    AddConn -> getClient; useCount.Add(-1)                  E3AddConn h
    the dial goroutine: cl.dialErr / cl.conn, close(dialing) E3DialDone cl ok
-   RoundTripOpt: <-cl.dialing; dialErr -> removeClient;
-     else defer useCount.Add(-1)                           E3Proceed q
-   RoundTripOpt: <-req.Context().Done() while dialling     E3Abandon q
+   the peer / idle timeout closes the QUIC connection      E3ConnGone cl
+   RoundTripOpt: <-cl.dialing; dialErr -> Add(-1),
+     removeClientEntry, (dial again | return dialErr);
+     else defer useCount.Add(-1)                           E3Proceed q retry
+   RoundTripOpt: <-req.Context().Done() while dialling:
+     Add(-1), return                                       E3Abandon q
    cl.rt.RoundTrip returned; removeClient on error;
      deferred useCount.Add(-1)                             E3Finish q ok remove
    CloseIdleConnections                                    E3CloseIdle
 
-   As in the Go code, the two early returns of RoundTripOpt (context done while the dial is in
-   progress, and dialErr != nil) do NOT give the useCount back: the model counts them in the
-   ghost field cl_leak (see h3_abandon_leaks in Proofs/H3CacheProofs.v).  AddConn's
-   Add(1)/Add(-1) pair is one event (the intermediate value is never read by AddConn's caller).
-   Not modelled: RoundTripper.Close, the 0-RTT / isReused retry, OnlyCachedConn. *)
+   AddConn's Add(1)/Add(-1) pair is one event (the intermediate value is never read by AddConn's
+   caller).  Not modelled: RoundTripper.Close, OnlyCachedConn, the re-send of a request on a
+   new connection after a Timeout / closed-connection error of a reused one (the recursive
+   RoundTripOpt runs while the deferred Add(-1) of the old client is still pending), and
+   getClient's second look at a dial that failed between creation and the select. *)
 From Coq Require Import List Arith Bool ZArith.
 From ReqV Require Import Model.Pool.
 Import ListNotations.
@@ -37,60 +43,80 @@ Inductive h3phase :=
 | Q3None
 | Q3Wait (cl : clid)      (* holds a useCount of cl, waiting for <-cl.dialing *)
 | Q3Run (cl : clid)       (* inside cl.rt.RoundTrip *)
+| Q3Again (h : host)      (* about to call getClient again (dial error of another request's context) *)
 | Q3Done (ok : bool).
 
 Record h3state := mkH3 {
   clients : host -> option clid;
   cl_host : clid -> host;
   cl_dial : clid -> dstat;
+  cl_gone : clid -> bool;
   cl_use : clid -> Z;
   cl_users : clid -> list qid;
-  cl_leak : clid -> nat;
   cl_closed : clid -> bool;
   q_phase : qid -> h3phase;
   n_cl : nat;
   n_q : nat }.
 
 Definition set3_clients (v : host -> option clid) (s : h3state) : h3state :=
-  mkH3 v (cl_host s) (cl_dial s) (cl_use s) (cl_users s) (cl_leak s) (cl_closed s) (q_phase s) (n_cl s) (n_q s).
+  mkH3 v (cl_host s) (cl_dial s) (cl_gone s) (cl_use s) (cl_users s) (cl_closed s) (q_phase s) (n_cl s) (n_q s).
 Definition set3_cl_host (v : clid -> host) (s : h3state) : h3state :=
-  mkH3 (clients s) v (cl_dial s) (cl_use s) (cl_users s) (cl_leak s) (cl_closed s) (q_phase s) (n_cl s) (n_q s).
+  mkH3 (clients s) v (cl_dial s) (cl_gone s) (cl_use s) (cl_users s) (cl_closed s) (q_phase s) (n_cl s) (n_q s).
 Definition set3_cl_dial (v : clid -> dstat) (s : h3state) : h3state :=
-  mkH3 (clients s) (cl_host s) v (cl_use s) (cl_users s) (cl_leak s) (cl_closed s) (q_phase s) (n_cl s) (n_q s).
+  mkH3 (clients s) (cl_host s) v (cl_gone s) (cl_use s) (cl_users s) (cl_closed s) (q_phase s) (n_cl s) (n_q s).
+Definition set3_cl_gone (v : clid -> bool) (s : h3state) : h3state :=
+  mkH3 (clients s) (cl_host s) (cl_dial s) v (cl_use s) (cl_users s) (cl_closed s) (q_phase s) (n_cl s) (n_q s).
 Definition set3_cl_use (v : clid -> Z) (s : h3state) : h3state :=
-  mkH3 (clients s) (cl_host s) (cl_dial s) v (cl_users s) (cl_leak s) (cl_closed s) (q_phase s) (n_cl s) (n_q s).
+  mkH3 (clients s) (cl_host s) (cl_dial s) (cl_gone s) v (cl_users s) (cl_closed s) (q_phase s) (n_cl s) (n_q s).
 Definition set3_cl_users (v : clid -> list qid) (s : h3state) : h3state :=
-  mkH3 (clients s) (cl_host s) (cl_dial s) (cl_use s) v (cl_leak s) (cl_closed s) (q_phase s) (n_cl s) (n_q s).
-Definition set3_cl_leak (v : clid -> nat) (s : h3state) : h3state :=
-  mkH3 (clients s) (cl_host s) (cl_dial s) (cl_use s) (cl_users s) v (cl_closed s) (q_phase s) (n_cl s) (n_q s).
+  mkH3 (clients s) (cl_host s) (cl_dial s) (cl_gone s) (cl_use s) v (cl_closed s) (q_phase s) (n_cl s) (n_q s).
 Definition set3_cl_closed (v : clid -> bool) (s : h3state) : h3state :=
-  mkH3 (clients s) (cl_host s) (cl_dial s) (cl_use s) (cl_users s) (cl_leak s) v (q_phase s) (n_cl s) (n_q s).
+  mkH3 (clients s) (cl_host s) (cl_dial s) (cl_gone s) (cl_use s) (cl_users s) v (q_phase s) (n_cl s) (n_q s).
 Definition set3_q_phase (v : qid -> h3phase) (s : h3state) : h3state :=
-  mkH3 (clients s) (cl_host s) (cl_dial s) (cl_use s) (cl_users s) (cl_leak s) (cl_closed s) v (n_cl s) (n_q s).
+  mkH3 (clients s) (cl_host s) (cl_dial s) (cl_gone s) (cl_use s) (cl_users s) (cl_closed s) v (n_cl s) (n_q s).
 Definition set3_n_cl (v : nat) (s : h3state) : h3state :=
-  mkH3 (clients s) (cl_host s) (cl_dial s) (cl_use s) (cl_users s) (cl_leak s) (cl_closed s) (q_phase s) v (n_q s).
+  mkH3 (clients s) (cl_host s) (cl_dial s) (cl_gone s) (cl_use s) (cl_users s) (cl_closed s) (q_phase s) v (n_q s).
 Definition set3_n_q (v : nat) (s : h3state) : h3state :=
-  mkH3 (clients s) (cl_host s) (cl_dial s) (cl_use s) (cl_users s) (cl_leak s) (cl_closed s) (q_phase s) (n_cl s) v.
+  mkH3 (clients s) (cl_host s) (cl_dial s) (cl_gone s) (cl_use s) (cl_users s) (cl_closed s) (q_phase s) (n_cl s) v.
 
 Definition h3_init : h3state :=
-  mkH3 (fun _ => None) (fun _ => 0) (fun _ => DialRunning) (fun _ => 0%Z) (fun _ => []) (fun _ => 0)
+  mkH3 (fun _ => None) (fun _ => 0) (fun _ => DialRunning) (fun _ => false) (fun _ => 0%Z) (fun _ => [])
        (fun _ => false) (fun _ => Q3None) 0 0.
 
 Definition new_client (s : h3state) (cl : clid) (h : host) (use : Z) (users : list qid) : h3state :=
   set3_n_cl (S cl)
    (set3_clients (upd (clients s) h (Some cl))
     (set3_cl_closed (upd (cl_closed s) cl false)
-     (set3_cl_leak (upd (cl_leak s) cl 0)
-      (set3_cl_users (upd (cl_users s) cl users)
-       (set3_cl_use (upd (cl_use s) cl use)
+     (set3_cl_users (upd (cl_users s) cl users)
+      (set3_cl_use (upd (cl_use s) cl use)
+       (set3_cl_gone (upd (cl_gone s) cl false)
         (set3_cl_dial (upd (cl_dial s) cl DialRunning)
          (set3_cl_host (upd (cl_host s) cl h) s))))))).
 
-(* the caller q stops using cl; [give_back]: whether useCount.Add(-1) is executed *)
-Definition release (s : h3state) (cl : clid) (q : qid) (give_back : bool) : h3state :=
-  let s := set3_cl_users (upd (cl_users s) cl (remove1 q (cl_users s cl))) s in
-  if give_back then set3_cl_use (upd (cl_use s) cl (cl_use s cl - 1)%Z) s
-  else set3_cl_leak (upd (cl_leak s) cl (S (cl_leak s cl))) s.
+(* getClient's test for an entry that cannot serve another request *)
+Definition stale (s : h3state) (cl : clid) : bool :=
+  match cl_dial s cl with
+  | DialErr => true
+  | DialOk => cl_gone s cl
+  | DialRunning => false
+  end.
+
+(* getClient on behalf of request q *)
+Definition get_client (s : h3state) (q : qid) (h : host) : h3state :=
+  let fresh := set3_q_phase (upd (q_phase s) q (Q3Wait (n_cl s))) (new_client s (n_cl s) h 1%Z [q]) in
+  match clients s h with
+  | None => fresh
+  | Some cl =>
+      if stale s cl then fresh
+      else set3_q_phase (upd (q_phase s) q (Q3Wait cl))
+            (set3_cl_users (upd (cl_users s) cl (q :: cl_users s cl))
+             (set3_cl_use (upd (cl_use s) cl (cl_use s cl + 1)%Z) s))
+  end.
+
+(* q stops using cl: useCount.Add(-1) *)
+Definition release (s : h3state) (cl : clid) (q : qid) : h3state :=
+  set3_cl_use (upd (cl_use s) cl (cl_use s cl - 1)%Z)
+   (set3_cl_users (upd (cl_users s) cl (remove1 q (cl_users s cl))) s).
 
 Definition is_current (s : h3state) (cl : clid) : bool :=
   match clients s (cl_host s cl) with
@@ -100,39 +126,27 @@ Definition is_current (s : h3state) (cl : clid) : bool :=
 
 Inductive h3event :=
 | E3Get (h : host)
+| E3Reget (q : qid)
 | E3AddConn (h : host)
 | E3DialDone (cl : clid) (ok : bool)
-| E3Proceed (q : qid)
+| E3ConnGone (cl : clid)
+| E3Proceed (q : qid) (retry : bool)
 | E3Abandon (q : qid)
 | E3Finish (q : qid) (ok remove : bool)
 | E3CloseIdle.
 
 Definition h3_step (s : h3state) (e : h3event) : h3state :=
   match e with
-  | E3Get h =>
-      let q := n_q s in
-      let s := set3_n_q (S q) s in
-      match clients s h with
-      | None =>
-          set3_q_phase (upd (q_phase s) q (Q3Wait (n_cl s))) (new_client s (n_cl s) h 1%Z [q])
-      | Some cl =>
-          match cl_dial s cl with
-          | DialErr =>                                       (* delete(r.clients, hostname); return dialErr *)
-              set3_q_phase (upd (q_phase s) q (Q3Done false)) (set3_clients (upd (clients s) h None) s)
-          | _ =>
-              set3_q_phase (upd (q_phase s) q (Q3Wait cl))
-               (set3_cl_users (upd (cl_users s) cl (q :: cl_users s cl))
-                (set3_cl_use (upd (cl_use s) cl (cl_use s cl + 1)%Z) s))
-          end
+  | E3Get h => let q := n_q s in get_client (set3_n_q (S q) s) q h
+  | E3Reget q =>
+      match q_phase s q with
+      | Q3Again h => get_client s q h
+      | _ => s
       end
   | E3AddConn h =>
       match clients s h with
       | None => new_client s (n_cl s) h 0%Z []
-      | Some cl =>
-          match cl_dial s cl with
-          | DialErr => set3_clients (upd (clients s) h None) s
-          | _ => s
-          end
+      | Some cl => if stale s cl then new_client s (n_cl s) h 0%Z [] else s
       end
   | E3DialDone cl ok =>
       if cl <? n_cl s then
@@ -141,14 +155,23 @@ Definition h3_step (s : h3state) (e : h3event) : h3state :=
         | _ => s
         end
       else s
-  | E3Proceed q =>
+  | E3ConnGone cl =>
+      if cl <? n_cl s then
+        match cl_dial s cl with
+        | DialOk => set3_cl_gone (upd (cl_gone s) cl true) s
+        | _ => s
+        end
+      else s
+  | E3Proceed q retry =>
       match q_phase s q with
       | Q3Wait cl =>
           match cl_dial s cl with
           | DialRunning => s                                    (* still blocked *)
-          | DialErr =>                                          (* removeClient(hostname); no Add(-1) *)
-              set3_q_phase (upd (q_phase s) q (Q3Done false))
-               (set3_clients (upd (clients s) (cl_host s cl) None) (release s cl q false))
+          | DialErr =>                                          (* Add(-1); removeClientEntry; again | err *)
+              let s1 := release s cl q in
+              let s2 := if is_current s1 cl
+                        then set3_clients (upd (clients s1) (cl_host s1 cl) None) s1 else s1 in
+              set3_q_phase (upd (q_phase s2) q (if retry then Q3Again (cl_host s cl) else Q3Done false)) s2
           | DialOk => set3_q_phase (upd (q_phase s) q (Q3Run cl)) s
           end
       | _ => s
@@ -157,7 +180,7 @@ Definition h3_step (s : h3state) (e : h3event) : h3state :=
       match q_phase s q with
       | Q3Wait cl =>
           match cl_dial s cl with
-          | DialRunning => set3_q_phase (upd (q_phase s) q (Q3Done false)) (release s cl q false)
+          | DialRunning => set3_q_phase (upd (q_phase s) q (Q3Done false)) (release s cl q)
           | _ => s
           end
       | _ => s
@@ -166,7 +189,7 @@ Definition h3_step (s : h3state) (e : h3event) : h3state :=
       match q_phase s q with
       | Q3Run cl =>
           let s1 := if negb ok && remove then set3_clients (upd (clients s) (cl_host s cl) None) s else s in
-          set3_q_phase (upd (q_phase s1) q (Q3Done ok)) (release s1 cl q true)
+          set3_q_phase (upd (q_phase s1) q (Q3Done ok)) (release s1 cl q)
       | _ => s
       end
   | E3CloseIdle =>
